@@ -325,15 +325,18 @@ theorem spSize_dropWhile_le (sp : Spine) (P : String × String × BT → Bool) :
     · simp only [spSize]; omega
     · exact Nat.le_refl _
 
+/-- the outer loop on a spine, with an explicit (linear) fuel bound -/
 def ClimbOK (sp : Spine) : Prop :=
   ∀ (u : Nat) (lhs : BT) (m : Nat) (k : List PT), SpOK prec u sp → StopAt prec m k →
-    ∃ f0, ∀ f, f0 ≤ f → climb prec f m (some lhs) (flatSp sp ++ k) =
+    ∀ f, 2 * spSize sp + 1 ≤ f → climb prec f m (some lhs) (flatSp sp ++ k) =
       some (foldSp lhs (sp.takeWhile (geP prec m)), flatSp (sp.dropWhile (geP prec m)) ++ k)
 
 def InnerOK (sp : Spine) : Prop :=
   ∀ (u : Nat) (lhs : BT) (q : Nat) (k : List PT), SpOK prec u sp → (∀ e ∈ sp, geP prec (q + 1) e = true) →
     StopAt prec (q + 1) k →
-    ∃ f0, ∀ f, f0 ≤ f → inner prec f q lhs (flatSp sp ++ k) = some (foldSp lhs sp, k)
+    ∀ f, 2 * spSize sp + 2 ≤ f → inner prec f q lhs (flatSp sp ++ k) = some (foldSp lhs sp, k)
+
+theorem BT.size_pos (t : BT) : 1 ≤ t.size := by cases t <;> simp [BT.size] <;> omega
 
 theorem both_ok : ∀ (n : Nat) (sp : Spine), spSize sp ≤ n → ClimbOK prec sp ∧ InnerOK prec sp := by
   intro n
@@ -346,8 +349,7 @@ theorem both_ok : ∀ (n : Nat) (sp : Spine), spSize sp ≤ n → ClimbOK prec s
       | cons e sp => obtain ⟨k, v, r⟩ := e; simp [spSize] at hsz
     subst this
     refine ⟨?_, ?_⟩
-    · intro u lhs m k _ hstop
-      refine ⟨1, fun f hf => ?_⟩
+    · intro u lhs m k _ hstop f hf
       obtain ⟨f', rfl⟩ : ∃ f', f = f' + 1 := ⟨f - 1, by omega⟩
       rw [climb_succ]
       simp only [flatSp, List.nil_append, List.takeWhile_nil, List.dropWhile_nil, foldSp]
@@ -361,8 +363,7 @@ theorem both_ok : ∀ (n : Nat) (sp : Spine), spSize sp ≤ n → ClimbOK prec s
           cases hp : prec kk with
           | none => rfl
           | some p => simp [hstop.1 kk v r p rfl hp]
-    · intro u lhs q k _ _ hstop
-      refine ⟨1, fun f hf => ?_⟩
+    · intro u lhs q k _ _ hstop f hf
       obtain ⟨f', rfl⟩ : ∃ f', f = f' + 1 := ⟨f - 1, by omega⟩
       rw [inner_succ]
       simp only [flatSp, List.nil_append, foldSp]
@@ -386,15 +387,16 @@ theorem both_ok : ∀ (n : Nat) (sp : Spine), spSize sp ≤ n → ClimbOK prec s
     | cons e sp' =>
       obtain ⟨k1, v1, r1⟩ := e
       have hsz' : spSize sp' + r1.size ≤ n := by simp [spSize] at hsz; omega
+      have hr1 := BT.size_pos r1
       -- the outer loop
       have hclimb : ClimbOK prec ((k1, v1, r1) :: sp') := by
-        intro u lhs m k hok hstop
+        intro u lhs m k hok hstop f hf
+        obtain ⟨f', rfl⟩ : ∃ f', f = f' + 1 := ⟨f - 1, by omega⟩
+        simp only [spSize] at hf
         cases hok with
         | cons _ _ _ _ _ p1 hp1 hle hw hs =>
           by_cases hlt : p1 < m
-          · refine ⟨1, fun f hf => ?_⟩
-            obtain ⟨f', rfl⟩ : ∃ f', f = f' + 1 := ⟨f - 1, by omega⟩
-            rw [climb_succ]
+          · rw [climb_succ]
             have hg : geP prec m (k1, v1, r1) = false := by simp [geP, hp1]; omega
             simp [flatSp, hp1, hlt, hg, foldSp]
           · have hg : geP prec m (k1, v1, r1) = true := by simp [geP, hp1]; omega
@@ -417,10 +419,8 @@ theorem both_ok : ∀ (n : Nat) (sp : Spine), spSize sp ≤ n → ClimbOK prec s
                 cases hs with
                 | nil => exact hstop.2 a r (by simpa [flatSp] using heq)
                 | cons _ k2 v2 r2 sp2 p2 _ _ _ _ => simp [flatSp] at heq
-            obtain ⟨fi, hfi⟩ := (ih spR (by omega)).2 uR (.leaf a) p1 (flatSp sp' ++ k) hokR hallR hstop2
-            obtain ⟨fc, hfc⟩ := (ih sp' (by omega)).1 p1 (.node k1 v1 lhs r1) m k hs hstop
-            refine ⟨max fi fc + 1, fun f hf => ?_⟩
-            obtain ⟨f', rfl⟩ : ∃ f', f = f' + 1 := ⟨f - 1, by omega⟩
+            have hfi := (ih spR (by omega)).2 uR (.leaf a) p1 (flatSp sp' ++ k) hokR hallR hstop2
+            have hfc := (ih sp' (by omega)).1 p1 (.node k1 v1 lhs r1) m k hs hstop
             rw [climb_succ]
             simp only [flatSp, List.cons_append, hp1, hlt, ↓reduceIte, htoks]
             simp only [List.append_assoc]
@@ -430,7 +430,8 @@ theorem both_ok : ∀ (n : Nat) (sp : Spine), spSize sp ≤ n → ClimbOK prec s
             simp [hg, foldSp]
       refine ⟨hclimb, ?_⟩
       -- the inner loop
-      intro u lhs q k hok hall hstop
+      intro u lhs q k hok hall hstop f hf
+      obtain ⟨f', rfl⟩ : ∃ f', f = f' + 1 := ⟨f - 1, by omega⟩
       have hok' := hok
       cases hok with
       | cons _ _ _ _ _ p1 hp1 hle hw hs =>
@@ -442,28 +443,27 @@ theorem both_ok : ∀ (n : Nat) (sp : Spine), spSize sp ≤ n → ClimbOK prec s
           intro kk v r p heq hp
           have := hstop.1 kk v r p heq hp
           omega
-        obtain ⟨fc, hfc⟩ := hclimb u lhs p1 k hok' hstop1
+        have hfc := hclimb u lhs p1 k hok' hstop1
         have hg : geP prec p1 (k1, v1, r1) = true := by simp [geP, hp1]
         -- what is left after the outer loop took the operators of level p1 and tighter
+        have hdle := spSize_dropWhile_le sp' (geP prec p1)
         have hdsz : spSize (((k1, v1, r1) :: sp').dropWhile (geP prec p1)) ≤ n := by
           simp only [List.dropWhile_cons, hg, ↓reduceIte]
-          have := spSize_dropWhile_le sp' (geP prec p1)
           omega
         have hdall : ∀ e ∈ ((k1, v1, r1) :: sp').dropWhile (geP prec p1), geP prec (q + 1) e = true :=
           fun e he => hall e (List.dropWhile_subset _ he)
-        obtain ⟨fi, hfi⟩ := (ih _ hdsz).2 u (foldSp lhs (((k1, v1, r1) :: sp').takeWhile (geP prec p1))) q k
+        have hfi := (ih _ hdsz).2 u (foldSp lhs (((k1, v1, r1) :: sp').takeWhile (geP prec p1))) q k
           (hok'.dropWhile prec _) hdall hstop
-        refine ⟨max fi fc + 1, fun f hf => ?_⟩
-        obtain ⟨f', rfl⟩ : ∃ f', f = f' + 1 := ⟨f - 1, by omega⟩
+        simp only [spSize] at hf
         rw [inner_succ]
         simp only [flatSp, List.cons_append, hp1]
         rw [if_pos (by omega)]
-        have := hfc f' (by omega)
+        have := hfc f' (by simp only [spSize]; omega)
         simp only [flatSp, List.cons_append] at this
         rw [this]
         simp only
-        rw [hfi f' (by omega), ← foldSp_append, List.takeWhile_append_dropWhile]
-
+        rw [hfi f' (by simp only [List.dropWhile_cons, hg, ↓reduceIte]; omega), ← foldSp_append,
+          List.takeWhile_append_dropWhile]
 
 /-! ## the theorems -/
 
@@ -485,14 +485,15 @@ theorem takeWhile_all {α} (P : α → Bool) (l : List α) (h : ∀ e ∈ l, P e
 /-- **Precedence climbing returns the grammar's tree.** For every tree `t` derivable from the
 level-`m` expression nonterminal and every continuation `k` that does not start with a binary
 operator of level `m` or tighter, the algorithm run at level `m` on the in-order tokens of `t`
-followed by `k` returns exactly `t` and leaves exactly `k` (for every sufficient fuel). -/
+followed by `k` returns exactly `t` and leaves exactly `k`, with fuel (recursion depth + loop
+iterations) at most twice the number of nodes of `t`: linear in the number of tokens. -/
 theorem climb_correct (t : BT) (m : Nat) (h : WF prec m t) (k : List PT) (hk : StopAt prec m k) :
-    ∃ f0, ∀ f, f0 ≤ f → climb prec f m none (t.toks ++ k) = some (t, k) := by
-  obtain ⟨a, sp, u, hfold, htoks, hok, hall, _⟩ := spine_of_tree prec t m h
-  obtain ⟨f0, hf0⟩ := (both_ok prec (spSize sp) sp (Nat.le_refl _)).1 u (.leaf a) m k hok hk
-  refine ⟨f0, fun f hf => ?_⟩
+    ∀ f, 2 * t.size ≤ f → climb prec f m none (t.toks ++ k) = some (t, k) := by
+  obtain ⟨a, sp, u, hfold, htoks, hok, hall, hsz⟩ := spine_of_tree prec t m h
+  have hf0 := (both_ok prec (spSize sp) sp (Nat.le_refl _)).1 u (.leaf a) m k hok hk
+  intro f hf
   have ht := takeWhile_all (geP prec m) sp hall
-  rw [htoks, List.cons_append, climb_none_atom, hf0 f hf, ht.1, ht.2, ← hfold]
+  rw [htoks, List.cons_append, climb_none_atom, hf0 f (by omega), ht.1, ht.2, ← hfold]
   rfl
 
 /-- **The tree is unique**: two well-formed trees with the same tokens are the same tree -/
@@ -502,10 +503,8 @@ theorem wf_tree_unique (t1 t2 : BT) (m : Nat) (h1 : WF prec m t1) (h2 : WF prec 
     refine ⟨?_, ?_⟩
     · intro _ _ _ _ h; cases h
     · intro _ _ h; cases h
-  obtain ⟨f1, hf1⟩ := climb_correct prec t1 m h1 [] hs
-  obtain ⟨f2, hf2⟩ := climb_correct prec t2 m h2 [] hs
-  have a := hf1 (max f1 f2) (Nat.le_max_left _ _)
-  have b := hf2 (max f1 f2) (Nat.le_max_right _ _)
+  have a := climb_correct prec t1 m h1 [] hs (max (2 * t1.size) (2 * t2.size)) (Nat.le_max_left _ _)
+  have b := climb_correct prec t2 m h2 [] hs (max (2 * t1.size) (2 * t2.size)) (Nat.le_max_right _ _)
   rw [h, b] at a
   simpa using a.symm
 
